@@ -226,7 +226,7 @@ def enc_state(model, st):
     return out
 
 
-def dec_state(model, toks):
+def dec_state(model, toks, allow_trailing=False):
     t = Toks(toks)
     st = {}
     for f, nk, c in STATE:
@@ -234,7 +234,8 @@ def dec_state(model, toks):
             st[f] = c[1](t)
         else:
             st[f] = [c[1](t) for _ in range(model[nk])]
-    assert t.i == len(toks), "trailing tokens in state"
+    if not allow_trailing:
+        assert t.i == len(toks), "trailing tokens in state"
     return st
 
 
